@@ -20,6 +20,7 @@ import (
 	"encoding/json"
 	"errors"
 	"fmt"
+	"reflect"
 	"strings"
 	"sync"
 	"time"
@@ -32,6 +33,8 @@ type RevealInput struct {
 	// IDs of Conditions put into the error state (SetErr) after building:
 	// such a Condition refuses SetExpression
 	ErrIDs []string `json:"err_ids,omitempty"`
+	// RO: check that read-only instances below a writable receiver stay as they are (family revealro)
+	RO bool `json:"ro,omitempty"`
 }
 
 // ---- Coq term of a description (family-specific configuration syntax) ----
@@ -111,6 +114,12 @@ func leafTerm(x any) (string, bool) {
 		return (&Node{T: "bool", Bv: v}).Coq(), true
 	case float64:
 		return (&Node{T: "float", Ty: 21, F: v}).Coq(), true
+	case float32:
+		return (&Node{T: "float", Ty: 20, F: float64(v)}).Coq(), true
+	case complex64:
+		return (&Node{T: "float", Ty: 22, F: float64(real(v)), F2: float64(imag(v))}).Coq(), true
+	case complex128:
+		return (&Node{T: "float", Ty: 23, F: real(v), F2: imag(v)}).Coq(), true
 	}
 	return "", false
 }
@@ -358,6 +367,16 @@ func runReveal(raw json.RawMessage) (res *Result, err error) {
 			evs = append(evs, ev{what, id})
 		}
 	})
+	// read-only Stacks and Conditions below a writable receiver: whatever Reveal
+	// does around them, they themselves stay exactly as they are
+	var ros []any
+	var roBefore []any
+	if in.RO && !root.IsReadOnly() {
+		collectReadOnlyAll(root, 0, &ros)
+		for _, x := range ros {
+			roBefore = append(roBefore, roSnapshot(x))
+		}
+	}
 	done := make(chan any, 1)
 	go func() {
 		defer func() { done <- recover() }()
@@ -441,12 +460,138 @@ func runReveal(raw json.RawMessage) (res *Result, err error) {
 	flag(len(lockTs) > 0, "lock-events")
 	flag(strBefore != strAfter && !dead, "string-changed")
 
+	invariant, invariantKF := "", ""
+	if !dead {
+		for i, x := range ros {
+			now := roSnapshot(x)
+			if reflect.DeepEqual(roBefore[i], now) {
+				continue
+			}
+			bj, _ := json.Marshal(roBefore[i])
+			aj, _ := json.Marshal(now)
+			bm, _ := roBefore[i].(map[string]any)
+			am, _ := now.(map[string]any)
+			if _, isStack := x.(stk.Stack); isStack && reflect.DeepEqual(bm["cfg"], am["cfg"]) {
+				// slots of a read-only nested Stack replaced (its own settings untouched)
+				if invariant == "" {
+					invariant = fmt.Sprintf("Reveal on a writable ancestor replaced slots of a read-only nested Stack: before=%s after=%s", trunc(string(bj), 400), trunc(string(aj), 400))
+					invariantKF = "reveal-nested-readonly-stack-slots"
+				}
+				continue
+			}
+			what := "Condition"
+			if _, isStack := x.(stk.Stack); isStack {
+				what = "Stack's settings"
+			}
+			invariant = fmt.Sprintf("Reveal changed a read-only %s: before=%s after=%s", what, trunc(string(bj), 400), trunc(string(aj), 400))
+			invariantKF = ""
+			break
+		}
+	}
+	flag(len(ros) > 0, "read-only-below-root")
 	coq := fmt.Sprintf("(MkCase %s %s %s %s)", inTerm, coqBool(dead), after, coqList(lockTs))
 	obs := map[string]any{"returned": !dead, "panicked": panicked, "after": after, "locks": lockJ,
 		"string_before": strBefore, "string_after": strAfter,
 		"stacks_before": wb.stacks, "stacks_after": wa.stacks}
-	return &Result{Coq: coq, Observed: obs, Tags: joinTags(tags),
+	return &Result{Coq: coq, Observed: obs, Tags: joinTags(tags), Invariant: invariant, InvariantKF: invariantKF,
 		Nontrivial: st.nested >= 2 && st.nodes >= 4 && (st.redundant > 0 || st.maxChain >= 1 || st.condStack > 0)}, nil
+}
+
+// collectReadOnlyAll: handles of every read-only Stack and Condition reachable from v
+func collectReadOnlyAll(v any, depth int, acc *[]any) {
+	if depth > 12 {
+		return
+	}
+	if s, ok := nativeOf(v); ok {
+		if s.IsReadOnly() && depth > 0 {
+			*acc = append(*acc, s)
+		}
+		for i := 0; i < s.Len(); i++ {
+			e, _ := s.Index(i)
+			collectReadOnlyAll(e, depth+1, acc)
+		}
+		return
+	}
+	if c, ok := nativeCondOf(v); ok {
+		if c.IsReadOnly() {
+			*acc = append(*acc, c)
+		}
+		collectReadOnlyAll(c.Expression(), depth+1, acc)
+	}
+}
+
+// roSnapshot: the hidden state of the instance itself; for a Condition also the
+// dynamic type and identity of what it holds (the levels below are their own business)
+func roSnapshot(x any) any {
+	d := stk.VerifDump(x)
+	switch c := x.(type) {
+	case stk.Condition:
+		ex := c.Expression()
+		id := ""
+		if s, ok := nativeOf(ex); ok {
+			id = fmt.Sprintf("%x", s.Addr())
+		} else if cc, ok := nativeCondOf(ex); ok {
+			id = fmt.Sprintf("%x", cc.Addr())
+		}
+		return map[string]any{"cfg": cleanCfg(d["cfg"]), "kw": d["kw"], "optext": d["optext"], "extype": fmt.Sprintf("%T", ex), "exid": id}
+	case stk.Stack:
+		var slots []string
+		for i := 0; i < c.Len(); i++ {
+			e, _ := c.Index(i)
+			if s, ok := nativeOf(e); ok {
+				slots = append(slots, fmt.Sprintf("%T@%x", e, s.Addr()))
+			} else if cc, ok := nativeCondOf(e); ok {
+				slots = append(slots, fmt.Sprintf("%T@%x", e, cc.Addr()))
+			} else {
+				slots = append(slots, fmt.Sprintf("%T:%v", e, e))
+			}
+		}
+		return map[string]any{"cfg": cleanCfg(d["cfg"]), "rawlen": d["rawlen"], "slots": slots}
+	}
+	return nil
+}
+
+// genRevealRO: trees that hold read-only Conditions and Stacks below a writable receiver
+func genRevealRO(ctx *Ctx, emit func(any, string)) {
+	leaf := func(s string) *Node { return &Node{T: "str", S: s} }
+	k := 0
+	id := func() string { k++; return fmt.Sprintf("n%d", k-1) }
+	for _, exA := range []string{"", "aval", "aptr", "avalstr", "aptrstr"} {
+		for _, cA := range []string{"", "aval", "aptr"} {
+			for _, pos := range []int{0, 1} {
+				for _, wrapped := range []bool{false, true} {
+					k = 0
+					root := &Node{T: "stack", ID: id(), Kind: "AND"}
+					var ex *Node = &Node{T: "stack", ID: id(), Kind: "OR", A: exA, Els: []*Node{leaf("p"), leaf("q")}}
+					if wrapped {
+						ex = &Node{T: "stack", ID: id(), Kind: "OR", A: exA, Els: []*Node{{T: "stack", ID: id(), Kind: "AND", Els: []*Node{leaf("p"), leaf("q")}}}}
+					}
+					ro := &Node{T: "cond", ID: id(), A: cA, Kw: "ro", Op: &OpDesc{Builtin: 1}, Opt: 128, Ex: ex}
+					env := &Node{T: "stack", ID: id(), Kind: "OR", Els: []*Node{{T: "stack", ID: id(), Kind: "AND", Els: []*Node{leaf("x"), leaf("y")}}}}
+					envc := &Node{T: "stack", ID: id(), Kind: "OR", Els: []*Node{{T: "cond", ID: id(), Kw: "c", Op: &OpDesc{Builtin: 2}, Ex: leaf("v")}}}
+					if pos == 0 {
+						root.Els = []*Node{ro, env, envc}
+					} else {
+						root.Els = []*Node{env, ro, envc}
+					}
+					emit(RevealInput{Tree: root, RO: true}, "exhaustive")
+					// the same below one more level
+					k = 100
+					emit(RevealInput{Tree: &Node{T: "stack", ID: "top", Kind: "OR", Mutex: true, Els: []*Node{leaf("l"), root}}, RO: true}, "exhaustive")
+				}
+			}
+		}
+	}
+	n := ctx.N(500, 20000)
+	for i := 0; i < n; i++ {
+		r := ctx.Rng.Fork()
+		g := &revGen{r: r, maxDepth: 2 + r.Intn(4), maxWidth: 3, roBoost: 25}
+		t := g.stack(0, true)
+		if t.Opt&128 != 0 {
+			continue
+		}
+		emit(RevealInput{Tree: t, ErrIDs: g.errIDs, RO: true}, "random")
+	}
 }
 
 func safeString(s stk.Stack) (out string) {
@@ -466,6 +611,7 @@ type revGen struct {
 	maxWidth int
 	next     int
 	errIDs   []string
+	roBoost  int // added to the share of read-only Conditions and nested Stacks (percent)
 }
 
 func (g *revGen) id() string {
@@ -515,7 +661,7 @@ func (g *revGen) cond(depth int) *Node {
 	if g.r.Pct(6) {
 		n.Opt |= 256 // no nesting (set after the expression): SetExpression is then refused
 	}
-	if g.r.Pct(6) {
+	if g.r.Pct(6 + g.roBoost) {
 		n.Opt |= 128 // read-only
 	}
 	switch x := g.r.Intn(100); {
@@ -559,7 +705,7 @@ func (g *revGen) stack(depth int, root bool) *Node {
 	if g.r.Pct(4) {
 		n.Opt |= 256
 	}
-	if g.r.Pct(4) && !root {
+	if g.r.Pct(4+g.roBoost/2) && !root {
 		n.Opt |= 128
 	}
 	if g.r.Pct(30) {
@@ -731,6 +877,8 @@ func genReveal(ctx *Ctx, emit func(any, string)) {
 }
 
 func init() {
+	register(&Family{Name: "revealro", Gen: genRevealRO, Run: runReveal,
+		Rule: "exhaustive: a read-only Condition (native, alias, pointer to alias) holding a Stack in each of five node forms, plain or wrapped once, in slot 0 / slot 1 of a writable Stack next to single-slot envelopes, at the top and one level down; random: the trees of the reveal family with read-only Conditions (31%) and read-only nested Stacks (16%). Checked by the harness itself: after Reveal on the writable receiver every read-only Stack / Condition below it has the hidden configuration, raw length, slot identities and (Conditions) keyword, operator, dynamic type and identity of the expression it had before. every case with a read-only node is non-trivial"})
 	register(&Family{Name: "reveal", Gen: genReveal, Run: runReveal,
 		Rule: "exhaustive: root shapes {[chain], [leaf,chain], [cond(stack),chain], [cond(cond(stack)),chain], fwd-index [chain,leaf,chain]} x every chain of <=2 (quick) / <=4 (thorough) single-slot wrappers over {plain+mutex, plain, parenthetical, NOT, plain+forward-index+mutex, plain typed as alias} x 8 terminals {2-leaf stack (mutex), parenthetical 2-leaf stack, Condition, parenthetical Condition, leaf, empty stack, zero Stack, Condition holding a wrapped stack}; zero / empty / read-only receivers; random: trees of depth <=5, width <=3, 45% single-slot stacks, 5 kinds, parenthetical 25%, forward/negative-index/no-nesting/read-only bits, mutex on 30% of the nodes, 18% alias-typed nodes, Conditions (45% holding a stack; no-nesting / read-only / error-state ones), nil slots, zero instances, empty stacks. Observed: returned or not (1.5 s watchdog), pre-order walk afterwards (typing, kind, option word, ID of every node; leaves; keyword/operator), mutex events by node ID. distinct = distinct input hash; non-trivial = >=2 nested stacks, >=4 nodes and a single-slot chain, a redundant wrapper or a Condition holding a stack"})
 }
